@@ -269,7 +269,8 @@ def h_small_adapters(which: int, raw: int) -> int:
     nk = raw % 8
     idx = (raw // 8) % 8
     nxt = raw // 64
-    ctx = Container(keygroup_raw=Container(next_keygroup_address=nxt), _index=idx, _=Container(header=Container(number_of_keygroups=nk)))
+    ctx = Container(keygroup_raw=Container(next_keygroup_address=nxt), _index=idx,
+                    _=Container(header=Container(number_of_keygroups=nk, first_keygroup_address=150 + (raw % 3) * 75)))
     return 1 if bool(_has_next_keygroup(ctx)) == (nxt > 0 and idx < nk - 1) else 0
 
 
@@ -342,17 +343,22 @@ def _zone(name, i):
     return _akai_name(name) + bytes([10 + i, 100 + i, 0, (i - 2) & 0xFF, (3 * i) & 0xFF, (250 + i) & 0xFF, i, i % 5]) + b"\xff\xff\x2c\x01"
 
 
-def h_ls_program(nk: int, z0: int, z1: int, gap0: int, gap1: int, base: int) -> int:
+def h_ls_program(nk: int, z0: int, z1: int, gap0: int, gap1: int, base: int, desc: int) -> int:
     """
-    pre: 1 <= nk <= 2 and 0 <= z0 <= 4 and 0 <= z1 <= 4 and 0 <= gap0 <= 2 and 0 <= gap1 <= 2 and 0 <= base <= 3
+    pre: 1 <= nk <= 2 and 0 <= z0 <= 4 and 0 <= z1 <= 4 and 0 <= gap0 <= 2 and 0 <= gap1 <= 2 and 0 <= base <= 3 and 0 <= desc <= 1
     post: _ == 1
     """
     CNT[0] += 1
-    nk, z0, z1, gap0, gap1, base = conc(nk, 1, 2), conc(z0, 0, 4), conc(z1, 0, 4), conc(gap0, 0, 2), conc(gap1, 0, 2), conc(base, 0, 3)
+    nk, z0, z1, gap0, gap1, base, desc = conc(nk, 1, 2), conc(z0, 0, 4), conc(z1, 0, 4), conc(gap0, 0, 2), conc(gap1, 0, 2), conc(base, 0, 3), conc(desc, 0, 1)
     with untraced():
         # program header: every numeric byte carries its own value (offset-derived), inside the ranges the enums accept
         hdr = bytearray(150)
-        first = 150 + 7 * gap0
+        # keygroup addresses: ascending (with gaps) or, desc, the second keygroup stored BELOW the first one (arbitrary next addresses)
+        if desc and nk == 2:
+            addrs = [150 + 7 * gap0 + 150 + 11 * gap1, 150 + 7 * gap0]
+        else:
+            addrs = [150 + 7 * gap0 + g * (150 + 11 * gap1) for g in range(nk)]
+        first = addrs[0]
         vals = {}
         for (name, off, w, signed) in T_PROGRAM:
             v = (off * 3 + base * 17 + 1) % 120
@@ -375,14 +381,14 @@ def h_ls_program(nk: int, z0: int, z1: int, gap0: int, gap1: int, base: int) -> 
             vals[name] = v
             hdr[off:off + w] = int(v).to_bytes(w, "little", signed=bool(signed) and v < 0) if v >= 0 else int(v).to_bytes(w, "little", signed=True)
         hdr[3:15] = _akai_name("PROG NAME")
-        blob = bytearray(hdr) + bytes(first - 150)
-        kg_addr = [first]
+        blob = bytearray(max(addrs) + 150 + 32)
+        blob[:150] = hdr
         zcounts = [z0, z1][:nk]
         for g in range(nk):
-            nxt = kg_addr[g] + 150 + 11 * gap1
+            nxt = addrs[g + 1] if g + 1 < nk else 0
             kg = bytearray(150)
             kg[0] = 2
-            kg[1:3] = struct.pack("<H", nxt if g + 1 < nk else 0)
+            kg[1:3] = struct.pack("<H", nxt)
             kg[3], kg[4] = 24 + g, 100 + g
             for i in range(5, 31):
                 kg[i] = (i * 2 + g) % 100
@@ -397,8 +403,7 @@ def h_ls_program(nk: int, z0: int, z1: int, gap0: int, gap1: int, base: int) -> 
             kg[136:140] = bytes([3, 4, 5, 6])
             kg[140:148] = struct.pack("<hhhh", -3, 7, -11, 13)
             kg[148] = 9
-            blob += kg + bytes(11 * gap1)
-            kg_addr.append(nxt)
+            blob[addrs[g]:addrs[g] + 150] = kg
         p = ProgramParser.parse(bytes(blob) + bytes(16), _elem_name="PROG FILE", _elem_parent=None, _elem_routines={}, file_type="S3000 Program")
         text = p.get_info().to_string()
         rows = _parse_listing(text)
